@@ -323,6 +323,13 @@ class PrintrunWriter(BaseWriter):
         """Callback to handle errors reported by printrun."""
 
         self._logger.error("Error: %s", message)
+
+        # Error lines sent by the device also reach _on_device_message,
+        # which has already reported them: do not report them twice
+
+        if message.strip().lower().startswith(ERROR_PREFIXES):
+            return
+
         self._device_error = DeviceError(message)
         self._ack_event.set()
 
